@@ -80,7 +80,7 @@ impl Registry {
         }
     }
 
-    fn canonicalize_exact(&self, name: &str) -> Option<String> {
+    fn canonicalize_exact(&self, name: &str, depth: usize) -> Option<String> {
         if let Some(v) = self.base_unit_long_names.get(name) {
             return Some(v.clone());
         }
@@ -94,7 +94,13 @@ impl Registry {
         }
         if let Some(expr) = self.definitions.get(name) {
             if let Expr::Unit { ref name } = *expr {
-                if let Some(canonicalized) = self.canonicalize(&*name) {
+                // An alias chain longer than the number of definitions
+                // has come back to where it started (a later load can
+                // redefine a name as an alias of its own alias).
+                if depth >= self.definitions.len() {
+                    return Some(name.clone());
+                }
+                if let Some(canonicalized) = self.canonicalize_depth(&*name, depth + 1) {
                     return Some(canonicalized);
                 } else {
                     return Some(name.clone());
@@ -110,13 +116,13 @@ impl Registry {
         Some(name.to_owned())
     }
 
-    fn canonicalize_with_prefix(&self, name: &str) -> Option<String> {
-        if let Some(v) = self.canonicalize_exact(name) {
+    fn canonicalize_with_prefix(&self, name: &str, depth: usize) -> Option<String> {
+        if let Some(v) = self.canonicalize_exact(name, depth) {
             return Some(v);
         }
         for &(ref prefix, ref value) in &self.prefixes {
             if let Some(name) = name.strip_prefix(prefix) {
-                if let Some(canonicalized) = self.canonicalize_exact(name) {
+                if let Some(canonicalized) = self.canonicalize_exact(name, depth) {
                     let mut prefix = prefix;
                     for &(ref other, ref otherval) in &self.prefixes {
                         if other.len() > prefix.len() && value == otherval {
@@ -150,13 +156,17 @@ impl Registry {
     /// * `mm` -> `millimeter` (prefixes are converted to long form)
     /// * `micron` -> `micrometer` (aliases are expanded)
     pub fn canonicalize(&self, name: &str) -> Option<String> {
-        let res = self.canonicalize_with_prefix(name);
+        self.canonicalize_depth(name, 0)
+    }
+
+    fn canonicalize_depth(&self, name: &str, depth: usize) -> Option<String> {
+        let res = self.canonicalize_with_prefix(name, depth);
         if res.is_some() {
             return res;
         }
 
         if let Some(name) = name.strip_suffix('s') {
-            self.canonicalize_with_prefix(name)
+            self.canonicalize_with_prefix(name, depth)
         } else {
             None
         }
